@@ -13,9 +13,13 @@ CONSTANTS
  MaxAdmin = 3
  MaxClose = 1
  MaxInval = 0
+ MaxCompact = 0
  FixRelease = TRUE
  DevReleaseRace = FALSE
  DevPutIfOwnerOther = FALSE
+ DevReacqBlind = FALSE
+ DevDropSameRev = FALSE
+ DevNoReload = FALSE
  FixRev = FALSE
  KeepHist = TRUE
 INIT Init
